@@ -211,6 +211,8 @@ pub fn replay(case: &Value) -> Result<(), Failure> {
 
 /// the LoRaWAN bands (865-867 MHz lies inside 863-870 MHz and is not repeated)
 const BANDS: [(u32, u32); 3] = [(433_050_000, 434_790_000), (863_000_000, 870_000_000), (902_000_000, 928_000_000)];
+/// requests just outside and far outside the chips' range
+pub const OUTSIDE: [u32; 14] = [0, 1, 61, 1_000_000, 136_999_999, 1_020_000_001, 1_023_999_999, 1_024_000_000, 2_400_000_000, 4_095_999_999, 4_096_000_000, 4_294_967_040, u32::MAX - 1, u32::MAX];
 const LO: u32 = 137_000_000;
 const HI: u32 = 1_020_000_000;
 pub const QUICK_STRIDE: u32 = 101;
@@ -272,6 +274,22 @@ pub fn sweep(ti: usize, n: usize, st: &mut Stats, full: bool) {
                 }
             }
         });
+    }
+    // requests outside 137-1020 MHz (outside the statement's domain: nothing is demanded of the word, but the call
+    // must not panic; what the drivers do with them is recorded as a class)
+    if ti == 0 {
+        for chip in CHIPS {
+            with_setter(chip, &mut |set| {
+                for hz in OUTSIDE {
+                    st.eval();
+                    match set(hz) {
+                        Ok(_) => st.class(&format!("freq:{chip}:outside-137-1020MHz:accepted-not-judged")),
+                        Err(e) if e.starts_with("PANIC ") => st.fail(fail_of(chip, "set_channel", hz, e)),
+                        Err(_) => st.class(&format!("freq:{chip}:outside-137-1020MHz:refused")),
+                    }
+                }
+            });
+        }
     }
     // named LoRaWAN channels through the adapter (tx and rx configuration paths)
     let chans = lorawan_channels();
